@@ -60,7 +60,7 @@ def install():
             finally:
                 # a real process joins its queue feeder threads at exit: it cannot be over before its items are in the pipe
                 if not s.aborted:
-                    s.yield_point(lambda: not any(v.enabled() for v in s.virtual if getattr(v, "proc", None) == proc),
+                    s.yield_point(lambda: not any(v.q.inflight.get(proc) for v in s.virtual if getattr(v, "proc", None) == proc),
                                   what="process-exit-flush")
         self._sim_task = s.spawn(body, "proc%d:%s" % (proc, type(self).__name__), proc=proc, kind="process")
         self._sim_child = child
